@@ -21,7 +21,9 @@ CONSTANTS MaxParams,   \* flag vectors of length 0..MaxParams (the harness has t
 
 Flags      == {"req", "opt"}          \* "opt" = the Rust type is syntactically Option<..> (render_server.rs:374 is_option)
 ParamKinds == {"array", "map"}        \* #[method(param_kind = ..)]; default array (rpc_macro.rs parse of param_kind)
-Namespaces == {"none", "under", "dot"} \* no namespace | namespace = ns (separator "_") | namespace_separator = "."
+Namespaces == {"none", "under", "dot", "odd"} \* no namespace | namespace = ns (separator "_") | namespace_separator = "."
+                                      \* | "odd": no namespace, and parameter names that are neither their own snake_case nor
+                                      \*   their own lowerCamelCase form (`_limit`, `type_`, `chainID`, rename = "block-hash")
 AllKinds   == {"sync", "async", "blocking", "sub", "alias"}
 AllVariants == {"stub",               \* the generated client method (render_client.rs:147-206)
                 "rawPosTailOmitted",  \* raw positional array, trailing none-valued optionals dropped
@@ -151,7 +153,8 @@ NoResult == [ok |-> FALSE, args |-> <<"unset">>]
 (* every call of the family.  (Deliberately not a named constant set `Calls`: TLC evaluates constant           *)
 (* definitions eagerly and needs 28 s to build and normalise that set; the nested \E enumerates directly.)      *)
 Init == /\ \E f \in FlagVecs : \E k \in ParamKinds, s \in Namespaces, h \in Kinds, p \in Presences(f), v \in VariantsFor(f) :
-              call = [flags |-> f, pk |-> k, ns |-> s, kind |-> h, pres |-> p, variant |-> v]
+              /\ (s = "odd" => k = "map" /\ v # "rawNamedAlias")     \* names only matter by name; an odd name has no "other-case" spelling
+              /\ call = [flags |-> f, pk |-> k, ns |-> s, kind |-> h, pres |-> p, variant |-> v]
         /\ phase = "picked" /\ wire = NoWire /\ handler = "unset" /\ result = NoResult
 
 Encode == /\ phase = "picked"
